@@ -31,6 +31,9 @@ type c09ds struct {
 	stress    bool
 	lastCtr   map[string]uint64
 	decreased string
+	// failPut > 0: the failPut-th write into one of the message-key namespaces fails (once)
+	failPut int
+	failed  string
 }
 
 func c09interesting(k datastore.Key) bool {
@@ -66,6 +69,21 @@ func (d *c09ds) Get(ctx context.Context, k datastore.Key) ([]byte, error) {
 
 func (d *c09ds) Put(ctx context.Context, k datastore.Key, v []byte) error {
 	d.point("ds.Put", k)
+	if c09interesting(k) {
+		d.mu.Lock()
+		hit := false
+		if d.failPut > 0 {
+			d.failPut--
+			hit = d.failPut == 0
+		}
+		if hit {
+			d.failed = k.String()
+		}
+		d.mu.Unlock()
+		if hit {
+			return fmt.Errorf("injected write failure")
+		}
+	}
 	if strings.HasPrefix(k.String(), "/"+dsNamespaceChainKeyForDeviceOnGroup) {
 		ck := &protocoltypes.DeviceChainKey{}
 		if proto.Unmarshal(v, ck) == nil {
@@ -388,6 +406,37 @@ func TestVerifC09(t *testing.T) {
 		coq := fmt.Sprintf("CStress 0 %d %s %d", len(cs), vharness.Ns(sorted), fin)
 		out.Emit(vharness.Case{Kind: "first-use", Coq: coq, Key: fmt.Sprintf("first-use-%d-%d-%d", it, tasks, per), Nontrivial: true, OracleOK: ok, Note: note, Sig: sig,
 			Replay: map[string]any{"tasks": tasks, "messages_each": per, "group_kind": kind, "counters": sorted, "stored_counter": fin, "sends_repeated_after_first_use": early}})
+	}
+	// ---- a datastore write that fails during a send: the send may fail, but the envelopes that ARE
+	// returned still carry pairwise distinct, gap-free counters and the stored counter follows them ----
+	nFault := vharness.Budget(40, 800)
+	for it := 0; it < nFault; it++ {
+		kind := it % 3
+		c0 := rng.Intn(3)
+		w := c09new(t, kind, c0, false, rng.Int63())
+		w.ds.stress = true // no controlled scheduler here; the seeded delays are harmless in a sequential run
+		sends := 4 + rng.Intn(5)
+		w.ds.failPut = 1 + rng.Intn(2*sends) // every send writes the next message key and the chain key
+		refused := 0
+		for j := 0; j < sends; j++ {
+			e, err := w.store.SealEnvelope(ctx, w.g, vPayload(uint64(j), 4))
+			if err != nil {
+				refused++
+				continue
+			}
+			w.envs = append(w.envs, e)
+		}
+		cs := w.counters(t)
+		fin := w.finalCtr()
+		ok, sig, note := oracle(uint64(c0), cs, fin, w.ds.decreased)
+		if note != "" {
+			note = fmt.Sprintf("%d sends, the write of %s failed once (%d sends refused): %s", sends, w.ds.failed, refused, note)
+		}
+		sorted := append([]uint64(nil), cs...)
+		sort.Slice(sorted, func(i, j int) bool { return sorted[i] < sorted[j] })
+		coq := fmt.Sprintf("CStress %d %d %s %d", c0, len(cs), vharness.Ns(sorted), fin)
+		out.Emit(vharness.Case{Kind: "write-fault", Coq: coq, Key: fmt.Sprintf("fault-%d-%d-%s", it, sends, w.ds.failed), Nontrivial: w.ds.failed != "", OracleOK: ok, Note: note, Sig: sig,
+			Replay: map[string]any{"sends": sends, "failed_write": w.ds.failed, "refused": refused, "counters": sorted, "stored_counter": fin}})
 	}
 	// ---- several groups of one store: the account group and the contact groups of an account share
 	// the device key; every group keeps its own chain and its own gap-free run of counters ----
